@@ -151,3 +151,143 @@ UNITS += [
     sa('count_u8', 'unsigned char', dict(name='count', nparams=0), {
         'StaticArrayT__count': dict(requires=[SELF], assigns=[], ensures=[('C20', '__CPROVER_return_value == StaticArrayT__CAPACITY')])}),
 ]
+
+def all_eq(arr, count, val, n=256):
+    return '(' + ' && '.join('(!(%d < %s) || %s[%d] == %s)' % (u, count, arr, u, val) for u in range(n)) + ')'
+
+UNITS += [
+    sa('empty_u8', 'unsigned char', dict(name='empty', nparams=0), {
+        'StaticArrayT__empty': dict(
+            requires=[SELF, SQ], assigns=[],
+            # result true  => every element equals the filler (shown for the arbitrary index g_q)
+            # result false => the element the scan stopped at differs: expressed through the ghost as the contrapositive
+            ensures=[('C20', implies('__CPROVER_return_value', 'self->_items[g_q] == 255')),
+                     ('C20', implies('!__CPROVER_return_value', '!' + all_eq('self->_items', 'StaticArrayT__CAPACITY', '255')))],
+            loops={0: dict(assigns=['__k0'],
+                           invariant=['__k0 <= StaticArrayT__CAPACITY', implies('g_q < __k0', 'self->_items[g_q] == 255')],
+                           decreases='StaticArrayT__CAPACITY - __k0')})}),
+    sa('ctor_fill_u8', 'unsigned char', dict(kind='ctor', name='StaticArrayT', nparams=1, sig=r'\(const'), {
+        'StaticArrayT__ctor1': dict(
+            requires=[SELF, SQ], assigns=['__CPROVER_object_whole(self)'],
+            ensures=[('C20', 'self->_items[g_q] == filler')]),
+        'StaticArrayT__fill': dict(requires=[], assigns=['__CPROVER_object_whole(self)'], ensures=['self->_items[g_q] == filler'])},
+        calls={'StaticArrayT__fill': 'contract'}),
+    # element type TaskLink (a two-byte struct with default member initialisers)
+    sa('index_link', 'ffsm2::detail::TaskLink', dict(name='operator[]', nparams=1, const=False), {
+        'StaticArrayT__op_index__unsigned_char': dict(
+            requires=[SELF, 'index < StaticArrayT__CAPACITY'], assigns=[],
+            ensures=[('C20', '__CPROVER_return_value == &self->_items[index]')])}),
+    sa('fill_link', 'ffsm2::detail::TaskLink', dict(name='fill', nparams=1), {
+        'StaticArrayT__fill': dict(
+            requires=[SELF, SQ], assigns=['__CPROVER_object_whole(self)'],
+            ensures=[('C20', 'self->_items[g_q].prev == filler.prev && self->_items[g_q].next == filler.next')],
+            loops={0: dict(assigns=['__k0', '__CPROVER_object_whole(self)'],
+                           invariant=['__k0 <= StaticArrayT__CAPACITY', implies('g_q < __k0', 'self->_items[g_q].prev == filler.prev && self->_items[g_q].next == filler.next')],
+                           decreases='StaticArrayT__CAPACITY - __k0')})}),
+    sa('clear_link', 'ffsm2::detail::TaskLink', dict(name='clear', nparams=0), {
+        'StaticArrayT__clear': dict(
+            requires=[SELF, SQ], assigns=['__CPROVER_object_whole(self)'],
+            ensures=[('C20', 'self->_items[g_q].prev == 255 && self->_items[g_q].next == 255')]),
+        'StaticArrayT__fill': dict(requires=[], assigns=['__CPROVER_object_whole(self)'],
+                                   ensures=['self->_items[g_q].prev == filler.prev && self->_items[g_q].next == filler.next'])},
+        calls={'StaticArrayT__fill': 'contract'}),
+]
+
+# ---------------------------------------------------------------------------------------------
+def da(id_, elem, target, contracts, **kw):
+    u = dict(witness=W, props=['C20', 'C18'],
+             recs={'DynamicArrayT': r'ffsm2::detail::DynamicArrayT<%s,\d+>$' % elem,
+                   'IteratorT': r'ffsm2::detail::IteratorT<ffsm2::detail::DynamicArrayT<%s,\d+>>$' % elem,
+                   'CIteratorT': r'ffsm2::detail::IteratorT<const ffsm2::detail::DynamicArrayT<%s,\d+>>$' % elem},
+             consts={'DynamicArrayT__NCapacity': ('range', 1, 255)},
+             ghost=['uint8_t g_q;   /* arbitrary element index */'],
+             id='c20.dynamic.%s' % id_, target=dict(cls=r'DynamicArrayT<%s,\d+>$' % elem, **target), contracts=contracts)
+    u.update(kw)
+    return u
+
+DWF = 'self->_count <= DynamicArrayT__CAPACITY'
+UNITS += [
+    da('emplace_u8', 'unsigned char', dict(name='emplace', nparams=1, sig=r'\(const unsigned char ?&\)'), {
+        'DynamicArrayT__emplace__unsigned_char': dict(
+            requires=[SELF, fresh('args'), 'self->_count < DynamicArrayT__CAPACITY', 'g_q < self->_count'],
+            assigns=['self->_count', 'self->_items[self->_count]'],
+            ensures=[('C20', '__CPROVER_return_value == __CPROVER_old(self->_count)'),
+                     ('C20', 'self->_count == __CPROVER_old(self->_count) + 1'),
+                     ('C20', 'self->_items[__CPROVER_return_value] == *args'),
+                     ('C20', 'self->_items[g_q] == __CPROVER_old(self->_items[g_q])')])}),
+    da('index_u8', 'unsigned char', dict(name='operator[]', nparams=1, const=False), {
+        'DynamicArrayT__op_index__unsigned_char': dict(
+            requires=[SELF, DWF, 'index < self->_count'], assigns=[],
+            ensures=[('C20', '__CPROVER_return_value == &self->_items[index]')])}),
+    da('count_u8', 'unsigned char', dict(name='count', nparams=0), {
+        'DynamicArrayT__count': dict(requires=[SELF], assigns=[], ensures=[('C20', '__CPROVER_return_value == self->_count')])}),
+    da('clear_u8', 'unsigned char', dict(name='clear', nparams=0), {
+        'DynamicArrayT__clear': dict(requires=[SELF], assigns=['self->_count'], ensures=[('C20', 'self->_count == 0')])}),
+    da('empty_u8', 'unsigned char', dict(name='empty', nparams=0), {
+        'DynamicArrayT__empty': dict(requires=[SELF], assigns=[], ensures=[('C20', '__CPROVER_return_value == (self->_count == 0)')])}),
+    da('append_item_u8', 'unsigned char', dict(name='operator+=', nparams=1, sig=r'\(const ffsm2::detail::DynamicArrayT<unsigned char, \S+>::Item ?&\)'), {
+        'DynamicArrayT__op_addassign': dict(
+            requires=[SELF, fresh('item'), 'self->_count < DynamicArrayT__CAPACITY', 'g_q < self->_count'],
+            assigns=['self->_count', 'self->_items[self->_count]'],
+            ensures=[('C20', '__CPROVER_return_value == self'),
+                     ('C20', 'self->_count == __CPROVER_old(self->_count) + 1'),
+                     ('C20', 'self->_items[__CPROVER_old(self->_count)] == *item'),
+                     ('C20', 'self->_items[g_q] == __CPROVER_old(self->_items[g_q])')])}),
+]
+
+# iteration: begin() at index 0, operator!= against limit() == count, ++ advances by one, * yields element at the cursor
+ITF = [fresh('self'), fresh('self->_container', '*self->_container')]
+UNITS += [
+    da('begin_u8', 'unsigned char', dict(name='begin', nparams=0, const=False), {
+        'DynamicArrayT__begin': dict(requires=[SELF], assigns=[],
+            ensures=[('C20', '__CPROVER_return_value._container == self && __CPROVER_return_value._cursor == 0')])}),
+    da('end_u8', 'unsigned char', dict(name='end', nparams=0, const=False), {
+        'DynamicArrayT__end': dict(requires=[SELF, DWF], assigns=[],
+            ensures=[('C20', '__CPROVER_return_value._container == self && __CPROVER_return_value._cursor == self->_count')])}),
+    da('cbegin_u8', 'unsigned char', dict(name='begin', nparams=0, const=True), {
+        'DynamicArrayT__begin_c': dict(requires=[SELF], assigns=[],
+            ensures=[('C20', '__CPROVER_return_value._container == self && __CPROVER_return_value._cursor == 0')])}),
+    da('cend_u8', 'unsigned char', dict(name='end', nparams=0, const=True), {
+        'DynamicArrayT__end_c': dict(requires=[SELF, DWF], assigns=[],
+            ensures=[('C20', '__CPROVER_return_value._container == self && __CPROVER_return_value._cursor == self->_count')])}),
+    dict(da('it_ne_u8', 'unsigned char', dict(name='operator!=', nparams=1), {
+        'IteratorT__op_ne': dict(requires=ITF + [fresh('_unnamed0')], assigns=[],
+            ensures=[('C20', '__CPROVER_return_value == (self->_cursor != self->_container->_count)')])}),
+         target=dict(cls=r'IteratorT<ffsm2::detail::DynamicArrayT<unsigned char,\d+>>$', name='operator!=', nparams=1)),
+    dict(da('it_inc_u8', 'unsigned char', dict(name='operator++', nparams=0), {
+        'IteratorT__op_inc': dict(requires=ITF + ['self->_cursor < self->_container->_count', 'self->_container->_count <= DynamicArrayT__CAPACITY'], assigns=['self->_cursor'],
+            ensures=[('C20', 'self->_cursor == __CPROVER_old(self->_cursor) + 1'), ('C20', '__CPROVER_return_value == self')])}),
+         target=dict(cls=r'IteratorT<ffsm2::detail::DynamicArrayT<unsigned char,\d+>>$', name='operator++', nparams=0)),
+    dict(da('it_deref_u8', 'unsigned char', dict(name='operator*', nparams=0), {
+        'IteratorT__op_deref': dict(requires=ITF + ['self->_cursor < self->_container->_count', 'self->_container->_count <= DynamicArrayT__CAPACITY'], assigns=[],
+            ensures=[('C20', '__CPROVER_return_value == &self->_container->_items[self->_cursor]')])}),
+         target=dict(cls=r'IteratorT<ffsm2::detail::DynamicArrayT<unsigned char,\d+>>$', name='operator*', nparams=0, const=False)),
+    dict(da('cit_ne_u8', 'unsigned char', dict(name='operator!=', nparams=1), {
+        'CIteratorT__op_ne': dict(requires=ITF + [fresh('_unnamed0')], assigns=[],
+            ensures=[('C20', '__CPROVER_return_value == (self->_cursor != self->_container->_count)')])}),
+         target=dict(cls=r'IteratorT<const ffsm2::detail::DynamicArrayT<unsigned char,\d+>>$', name='operator!=', nparams=1)),
+    dict(da('cit_inc_u8', 'unsigned char', dict(name='operator++', nparams=0), {
+        'CIteratorT__op_inc': dict(requires=ITF + ['self->_cursor < self->_container->_count', 'self->_container->_count <= DynamicArrayT__CAPACITY'], assigns=['self->_cursor'],
+            ensures=[('C20', 'self->_cursor == __CPROVER_old(self->_cursor) + 1'), ('C20', '__CPROVER_return_value == self')])}),
+         target=dict(cls=r'IteratorT<const ffsm2::detail::DynamicArrayT<unsigned char,\d+>>$', name='operator++', nparams=0)),
+    dict(da('cit_deref_u8', 'unsigned char', dict(name='operator*', nparams=0), {
+        'CIteratorT__op_deref': dict(requires=ITF + ['self->_cursor < self->_container->_count', 'self->_container->_count <= DynamicArrayT__CAPACITY'], assigns=[],
+            ensures=[('C20', '__CPROVER_return_value == &self->_container->_items[self->_cursor]')])}),
+         target=dict(cls=r'IteratorT<const ffsm2::detail::DynamicArrayT<unsigned char,\d+>>$', name='operator*', nparams=0)),
+]
+
+UNITS += [
+    da('append_array_u8', 'unsigned char', dict(name='operator+=', nparams=1, sig=r'\(const DynamicArrayT<'), {
+        "DynamicArrayT__op_addassign": dict(
+            requires=[SELF, fresh('other'), 'other->_count <= DynamicArrayT__CAPACITY',
+                      '(int)self->_count + (int)other->_count <= (int)DynamicArrayT__CAPACITY', '(int)g_q < (int)self->_count + (int)other->_count'],
+            assigns=['__CPROVER_object_whole(self)'],
+            ensures=[('C20', 'self->_count == __CPROVER_old(self->_count) + other->_count'),
+                     ('C20', 'self->_items[g_q] == (g_q < __CPROVER_old(self->_count) ? __CPROVER_old(self->_items[g_q]) : other->_items[g_q - __CPROVER_old(self->_count)])'),
+                     ('C20', '__CPROVER_return_value == self')],
+            loops={0: dict(assigns=['__begin0', '__CPROVER_object_whole(self)'],
+                           invariant=['__begin0._container == other', '__end0._container == other', '__begin0._cursor <= other->_count',
+                                      'self->_count == __CPROVER_loop_entry(self->_count) + __begin0._cursor',
+                                      implies('g_q < self->_count', 'self->_items[g_q] == (g_q < __CPROVER_loop_entry(self->_count) ? __CPROVER_loop_entry(self->_items[g_q]) : other->_items[g_q - __CPROVER_loop_entry(self->_count)])')],
+                           decreases='other->_count - __begin0._cursor')})}),
+]
